@@ -14,6 +14,7 @@ C02 line-protocol driver.
 import CaddyModel.Util.Hex
 import CaddyModel.C02.Model
 import CaddyModel.C02.Key
+import CaddyModel.C02.Quic
 
 namespace CaddyModel.C02
 
@@ -480,7 +481,33 @@ def handleKey (listen nw host port : String) : String :=
             else "")
   | _, _, _ => "bad-op"
 
+/-- `quic <op>;<op>;…` (see harness/internal/c02/quic.go) -/
+def parseQOp (s : String) : Option QOp :=
+  match s.toList with
+  | ['q'] => some .dial
+  | ['l', d] => if d.isDigit then some (.listen (d.toNat - 48)) else none
+  | ['c', d] => if d.isDigit then some (.close (d.toNat - 48)) else none
+  | _ => none
+
+def qOutputs (s : QState) : List QOp → List String
+  | [] => []
+  | op :: rest =>
+    let s' := qStep s op
+    (match op with
+     | .dial => (match qDial s with
+                 | some g => toString g
+                 | none => "x")
+     | _ => toString s'.quicRefs ++ toString s'.udpRefs) :: qOutputs s' rest
+
+def handleQuic (ops : String) : String :=
+  let parts := ops.splitOn ";"
+  if parts.length > 40 then "bad-op" else
+  match parts.mapM parseQOp with
+  | some l => if qOk QState.init [] l then " ".intercalate (qOutputs QState.init l) else "bad-op"
+  | none => "bad-op"
+
 def handle : List String → String
+  | ["quic", ops] => handleQuic ops
   | ["key", listen, _, nw, host, port] => if listen == "L" || listen == "N" then handleKey listen nw host port else "bad-op"
   | ["seq", grace, napps, cfgs, toks, trace] =>
     match parseScenario grace napps cfgs toks with
